@@ -56,6 +56,7 @@ def zip_(*args: Observable[Any]) -> Observable[tuple[Any, ...]]:
                 ):
                     observer.on_completed()
 
+        @synchronized(lock)
         def completed(i: int) -> None:
             is_completed[i] = True
             if len(queues[i]) == 0:
@@ -71,11 +72,15 @@ def zip_(*args: Observable[Any]) -> Observable[tuple[Any, ...]]:
             sad = SingleAssignmentDisposable()
 
             def on_next(x: Any) -> None:
-                queues[i].append(x)
-                next_(i)
+                with lock:
+                    queues[i].append(x)
+                    next_(i)
 
             sad.disposable = source.subscribe(
-                on_next, observer.on_error, lambda: completed(i), scheduler=scheduler
+                on_next,
+                synchronized(lock)(observer.on_error),
+                lambda: completed(i),
+                scheduler=scheduler,
             )
             subscriptions[i] = sad
 
